@@ -267,7 +267,7 @@ def _events(rng, n, keys_pools, base, unit, contiguous):
             pos += dur
         else:
             pos = rng.randrange(0, 50) * unit
-        specs.append(dict(ts=ts, dur=dur, data=data, **({"id": i} if rng.random() < 0.5 else {}),
+        specs.append(dict(ts=ts, dur=dur, data=data, **({"id": (i if rng.random() < 0.8 else rng.randrange(0, 3))} if rng.random() < 0.5 else {}),
                           **({"zone": zone} if zone and rng.random() < 0.7 else {})))
     if specs and rng.random() < 0.3:
         specs.append(dict(rng.choice(specs)))
